@@ -140,6 +140,12 @@ func (i *Inserter) IngestTableFromSorter(columns []string, pk []uint32) ([]byte,
 	sorterErrChan := make(chan error, 1)
 	i.blocks = i.sorter.SortedBlocks(ctx, nil, sorterErrChan)
 	sum, err := i.ingestTableFromBlocks(columns, pk)
+	// the sorter's producer goroutine must be over before this returns: when every worker has
+	// failed nobody receives its blocks any more, and the caller may reset and reload the sorter
+	// for another attempt at once
+	cancel()
+	for range i.blocks {
+	}
 	close(sorterErrChan)
 	if sortErr, ok := <-sorterErrChan; ok {
 		return nil, sortErr
